@@ -54,7 +54,8 @@ STUBS = ["CPython API contracts in vt/capi.py (do-the-real-thing for concrete ob
          "int -> double: exact (bit-vector) for |i| < 2**63, uninterpreted finite value of magnitude >= 2**63 beyond, "
          "OverflowError iff |i| >= 2**1024 - 2**970", "int(float), str(x), bytes(n): uninterpreted results identified by their argument",
          "allocation never fails"]
-ASSUMPTIONS = ["allocation failure out of scope", "NaN as a Range *bound* excluded (configuration nobody can mean)"]
+ASSUMPTIONS = ["allocation failure out of scope", "int(float): |f| < 2**63", "bytes(n): n < 2**16",
+               "int -> double: |i| < 2**63 or beyond the double range", "NaN as a Range *bound* excluded (configuration nobody can mean)"]
 
 
 class A(HasTraits):
@@ -191,6 +192,8 @@ def mk_value(ex, kind, tag="v"):
         return SymComplex(re.f, im.f, pytype=ComplexSub) if s else ComplexSub(re, im)
     if kind == "str":
         return ["", "abc", "12", "yes"][ex.choice(tag + ".s", 4)]
+    if kind == "str6":
+        return ["abcdef", "ab", "a"][ex.choice(tag + ".s", 3)]
     if kind == "strsub":
         return StrSub(["", "abc", "12"][ex.choice(tag + ".s", 3)])
     if kind == "bytes":
